@@ -19,9 +19,9 @@ def sh(cmd, **kw):
 def one(args):
     lane, seed, checks, tier, jobs = args
     d = os.path.join(SEEDED, seed)
-    wt = "/tmp/seedwt-%d" % lane
-    cache = "/tmp/seedcache-%d" % lane
-    out = "/tmp/seedout-%d" % lane
+    wt = "/tmp/seedwt-%d-%d" % (os.getpid(), lane)
+    cache = "/tmp/seedcache-%d-%d" % (os.getpid(), lane)
+    out = "/tmp/seedout-%d-%d" % (os.getpid(), lane)
     sh("git -C /repo worktree remove --force %s; rm -rf %s" % (wt, wt))
     r = sh("git -C /repo worktree add --detach %s HEAD" % wt)
     if r.returncode != 0:
@@ -38,6 +38,7 @@ def one(args):
             t = time.time()
             r = sh("cd %s && timeout 3600 ./check %s --tier %s" % (VERIF, c, tier), env=env)
             txt = r.stdout.decode("utf-8", "replace")
+            open("/tmp/seedlog-%s-%s.log" % (seed, c), "w").write(txt)
             lines = [l[:300] for l in txt.split("\n") if re.match(r"^(VIOLATION|KNOWN-FINDING|MODEL-DIVERGENCE|MACHINERY|UNCONFIRMED|INCONCLUSIVE)", l)]
             res["runs"].append(dict(check=c, cmd="./check %s --tier %s" % (c, tier), exit=r.returncode, seconds=round(time.time() - t, 1), detected=(r.returncode == 1 and any(l.startswith("VIOLATION property=%s" % c) for l in lines)),
                                     lines=lines[:12]))
@@ -96,7 +97,7 @@ def main():
                 if not r["detected"]:
                     bad += 1
     for i in range(lanes):
-        shutil.rmtree("/tmp/seedcache-%d" % i, ignore_errors=True)
+        shutil.rmtree("/tmp/seedcache-%d-%d" % (os.getpid(), i), ignore_errors=True)
     sh("git -C /repo worktree prune")
     return 1 if bad else 0
 
